@@ -19,9 +19,22 @@ def check_C12(tier, seed):
 
 
 def check_C11(tier, seed):
+    import os
+    import sys
+    sys.path.insert(0, os.path.join(os.path.dirname(os.path.abspath(__file__)), "..", "translators"))
+    import panic_sites
+    import driver as D
+
+    def t7():
+        r = panic_sites.generate(D.REPO, os.path.join(D.COQ, "theories", "Gen", "PanicSites.v"))
+        if r["unclassified"]:
+            D.log("T7: unclassified panic sites: %s" % r["unclassified"][:5])
+    t7.__name__ = "T7 panic_sites (parser.rs, locustdb.rs, query.rs, query_task.rs, batch_merging.rs, inner_locustdb.rs, shared_sender.rs, task.rs, input_column.rs, buffer.rs)"
     return standard_check(
-        "C11", tier, seed, "front", ["c11_canary"],
-        trusted=["the canary harness: one child process per database lifetime (killed on a total deadline), every API call on its own thread with an 8 s "
+        "C11", tier, seed, "front", ["c11_canary"], translators=[t7],
+        trusted=["translator T7 (translators/panic_sites.py): the inventory of panic-capable constructs and the hand-written classification rules / table "
+                 "(the classes Guarded / NotRequestPath are claims by reading, not theorems)",
+                 "the canary harness: one child process per database lifetime (killed on a total deadline), every API call on its own thread with an 8 s "
                  "deadline, a process-wide panic hook as the only view of pool-thread / flush-job panics, and the table `panic site -> locks held` of canary.rs::held_of",
                  "thread scheduling, std::sync poisoning semantics and the one-shot / mpsc channels are not modelled: the model states their effect on the bookkeeping"],
         assumptions=["fairness: a live worker / the flush thread keeps iterating (C11_progress, C11_flush_handshake are statements about iterations)"],
@@ -32,4 +45,44 @@ def check_C11(tier, seed):
 
 
 CHECKS = {"C12": check_C12, "C11": check_C11}
-CLAIMED = {}
+CLAIMED = {
+    "C12": dict(
+        text="Machine-checked proof (Coq) over an executable model of the conversion from the SQL parser's AST to LocustDB's query (parse_query and all its "
+             "helpers, Query::normalize / extract_aggregators, the output slice), stated for EVERY reduced AST: (1) plain totality is refuted by vm_compute witnesses "
+             "(LIMIT 1.5, LIMIT 10^23-1, OFFSET 1.5, an identifier whose value is a lone quote, a select text / table name that starts with a quote and ends in a "
+             "multi-byte character, an empty statement list), and outside the decidable class KnownPanicClass the conversion returns a query or an error value, "
+             "never a panic; (2) it returns a query exactly for the supported grammar (`supported`, a syntactic predicate), so every unsupported construct - joins, "
+             "GROUP BY, HAVING, DISTINCT, several FROM items, set operations, non-SELECT statements, unsupported operators / functions / AST nodes / values, named and "
+             "wildcard arguments, wrong arity, LIKE ... ESCAPE - yields NotImplemented / ParseError (Fatal for an unknown unary operator); (3) on success there is "
+             "exactly one output name per select item, in order, equal to `*`, or the alias / written text minus its surrounding quote bytes; (4) normalize never "
+             "panics, maps every select position to an existing projection / aggregate slot carrying the item's name and uses each slot exactly once in order "
+             "(or, with a final pass, position i = final column i with LIMIT/OFFSET moved there); (5) the output slice has at most LIMIT rows and stays inside the "
+             "result unless OFFSET exceeds it (refuted: finding F5). The model is tied to the code by a differential run on generated and mutated query strings "
+             "(the full converted Query and the normal form are compared field by field) and the property itself is checked on LocustDB::run_query against a "
+             "fixture database by an oracle that derives its expectations from the sqlparser AST.",
+        note="Trusted: Coq kernel, extraction, sqlparser (the harness re-parses the text and reduces the AST; its panics would surface as caller panics), Rust's f64 "
+             "parser and Unicode upper-casing as oracle leaves. Select-star expansion, unknown table => error, unknown column => NULL, equal column lengths and "
+             "row/column agreement are covered by the API oracle only (the executor is not modelled). Engine-internal pool-thread panics reached through the rich "
+             "expression grammar are attributed to one family finding (F32) for the generator classes probe/mutation/tokens/quoting/limits; in the `shape`, "
+             "`unsupported`, `pinned` and `fresh-db` classes every violation must match a site-specific known finding.",
+        technique="Coq proof (totality outside a decidable class, acceptance = supported grammar, naming, slot bijection) over an executable model + AST-level differential + API oracle",
+        design_ref="5/C12"),
+    "C11": dict(
+        text="Machine-checked proof (Coq) over a model of the scheduler bookkeeping: (1) the damage state machine - requests that return values (results or error "
+             "values of any kind), in any number of rounds of concurrent requests, leave the live-worker count, the lock health and the flush thread exactly as they "
+             "were and all four canaries succeed after every round; damage is monotone (a lost worker is never replaced, a poisoned lock never heals, a dead flush "
+             "thread stays dead); the unguarded statement is refuted: a pool-thread panic loses a worker and with the last one gone every later query hangs (concrete "
+             "witness), a caller-side panic below ingest_efficient poisons the ingestion lock; the canaries detect every modelled damage except a partially depleted pool; "
+             "(2) the task queue (schedule / await_task / worker_loop, sequentialised): while a live worker keeps iterating and no task panics the queue drains within "
+             "`measure` iterations and every scheduled task has answered; a panicking task consumes its entry and answers nobody; (3) the force_flush hand-shake: every "
+             "caller registered before an iteration of the flush thread is answered after that iteration's flush, a late caller by the next one, the rest at shutdown, "
+             "nobody after a panicking flush job. The damage machine is tied to the code by the canary differential: every database lifetime in its own child process, "
+             "scenarios of valid / failing / known-damaging requests from 1-3 client threads against 1-3 workers (memory and disk), after every round a canary ingestion, "
+             "force_flush, query and table_stats under deadlines; the extracted model is fed the observed request outcomes and must reproduce every canary observation.",
+        note="Partial: 'returns in bounded time' is a fairness-conditional statement about iterations of the model (real thread interleavings, std::sync poisoning and the "
+             "channels are not modelled, their effect on the bookkeeping is stated and validated by the differential). C11_sites_classified is a regenerated-table "
+             "obligation over the T7 inventory (102 constructs in 10 request-path files): the rule classes are backed by the model theorems, the Guarded / "
+             "NotRequestPath classes are justified by reading only; the planner and the vector operators are not inventoried. Compaction/encoding branches are exercised for one branch only (hex-packed strings, finding F2).",
+        technique="Coq proof of invariants of three small state machines + canary differential in child processes",
+        design_ref="5/C11"),
+}
